@@ -39,6 +39,9 @@ CHECKS = {
  'C07': dict(level='exploration', technique='property-based testing with a per-event monitor: generated with-items tasks (item count, zipped lists, concurrency literal/expression, action or sub-workflow items, per-item outcomes incl. cancel), generated completion orders, optional rerun with reset on/off',
    text='For every generated with-items case the world is observed after each engine event: the number of started-but-unfinished child executions never exceeds the concurrency limit, the task never completes while an item is unfinished or missing, every index 0..n-1 gets exactly one execution (one accepted execution after a rerun), the final state is CANCELLED > ERROR > SUCCESS by item outcomes, an empty list succeeds without starting anything, the published task result lists the item results in index order whatever the completion order, and a rerun without reset executes exactly the failed indexes (with reset: all).',
    design='3 C07', note=ASSUME + '; reruns are generated only for tasks without concurrency limit (known finding withitems-rerun-concurrency, replayed by a sub-check)'),
+ 'C08': dict(level='exploration', technique='property-based testing with a virtual clock: generated policy parameters (literal / YAQL / Jinja / task-defaults / invalid evaluated values), per-attempt outcomes and schedules in which clock advances race results; reference model of the documented policy semantics evaluated over the observed trace',
+   text='One policy-decorated task per case: retry (count, delay, break-on, continue-on), wait-before, wait-after, timeout, fail-on, pause-before in every parameter form, with drawn per-attempt outcomes (ok / error / never) under schedules where advancing the virtual clock is a schedulable choice. Checked over the trace with virtual timestamps: at most count+1 attempts; exact attempt count and final state from a reference model of stop-at-first-success / continue-on / break-on / fail-on; every DELAYED period lasts at least the delay of the policy that caused it; the follow-up task for the final state exists exactly once and the other does not; a timeout timer firing after completion changes no row; pause-before pauses the workflow and nothing starts before resume; an invalid evaluated value fails the task instead of hanging; no undeclared exception.',
+   design='3 C08', note=ASSUME + '; whole-second virtual clock; exact-count and delay oracles are applied only to cases without a timeout (timeout/retry interplay is checked for termination, bounds and timer no-ops)'),
 }
 NA = []
 def main():
